@@ -6,8 +6,7 @@ import Thanos.Lemmas.ChunkHeap
 -/
 namespace Thanos.Dedup
 
-/-- count samples of a chunk / of an iterator / of the heap -/
-def cnt (c : AggrChk) : Nat := (agg 0 c).length
+/-- count samples of an iterator / of the heap (`cnt` = count samples of a chunk) -/
 def cntIt (it : ChunkIt) : Nat := (it.map cnt).sum
 def cntHeap (h : List ChunkIt) : Nat := (h.map cntIt).sum
 
@@ -190,5 +189,216 @@ theorem hpop_head {h h' : List ChunkIt} {x : ChunkIt} (hp : hpop h = some (x, h'
       rw [List.head?_eq_getElem?, hx0]
       exact hy
     · simp at hp
+
+
+
+/-! ### totality of the drain: the count samples held by the heap strictly decrease -/
+
+/-- no exhausted iterator sits in the heap -/
+def NE (h : List ChunkIt) : Prop := ∀ it ∈ h, it ≠ []
+
+theorem hpush_mem {h : List ChunkIt} {x it : ChunkIt} (hit : it ∈ hpush h x) : it ∈ h ∨ it = x := by
+  have := hup_sub _ _ _ it hit
+  rcases List.mem_append.mp this with h1 | h1
+  · exact Or.inl h1
+  · simp at h1; exact Or.inr h1
+
+theorem hpop_mem {h h' : List ChunkIt} {x : ChunkIt} (hp : hpop h = some (x, h')) :
+    x ∈ h ∧ ∀ it ∈ h', it ∈ h := by
+  unfold hpop at hp
+  split at hp
+  · simp at hp
+  · simp only at hp
+    split at hp
+    · rename_i y hy
+      simp only [Option.some.injEq, Prod.mk.injEq] at hp
+      obtain ⟨rfl, rfl⟩ := hp
+      have hsub : ∀ it ∈ hdown (h.length + 1) (hswap h 0 (h.length - 1)) 0 (h.length - 1), it ∈ h :=
+        fun it hit => hswap_sub _ _ _ it (hdown_sub _ _ _ _ it hit)
+      exact ⟨hsub _ (List.mem_of_getLast? hy), fun it hit => hsub it (List.dropLast_subset _ hit)⟩
+    · simp at hp
+
+theorem hpop_some {h : List ChunkIt} (hne : h ≠ []) : ∃ x h', hpop h = some (x, h') := by
+  unfold hpop
+  split
+  · rename_i he; simp at he; exact absurd he hne
+  · simp only
+    split
+    · exact ⟨_, _, rfl⟩
+    · rename_i hl
+      rw [List.getLast?_eq_none_iff] at hl
+      have := congrArg List.length hl
+      rw [hdown_length, hswap_length] at this
+      cases h with
+      | nil => exact absurd rfl hne
+      | cons a t => simp at this
+
+theorem hpop_none {h : List ChunkIt} (hp : hpop h = none) : h = [] := by
+  cases h with
+  | nil => rfl
+  | cons a t =>
+    obtain ⟨x, h', hx⟩ := hpop_some (h := a :: t) (by simp)
+    rw [hx] at hp; simp at hp
+
+theorem hadvance_ne {h : List ChunkIt} {it : ChunkIt} (hh : NE h) : NE (hadvance h it) := by
+  unfold hadvance
+  split
+  · exact hh
+  · rename_i hne
+    intro x hx
+    rcases hpush_mem hx with h1 | h1
+    · exact hh x h1
+    · subst h1; intro he; rw [he] at hne; simp at hne
+
+theorem hadvance_cnt (h : List ChunkIt) (it : ChunkIt) :
+    cntHeap (hadvance h it) = cntHeap h + cntIt it.tail := by
+  unfold hadvance
+  split
+  · rename_i he
+    have : it.tail = [] := by simpa using he
+    rw [this]; simp [cntIt]
+  · exact hpush_cnt _ _
+
+theorem cntIt_cons (c : AggrChk) (t : List AggrChk) : cntIt (c :: t) = cnt c + cntIt t := by
+  simp [cntIt]
+
+/-- popping the top iterator and advancing it removes exactly its first chunk from the heap -/
+theorem pop_advance_cnt {h h1 : List ChunkIt} {it : ChunkIt} {c : AggrChk}
+    (hp : hpop h = some (it, h1)) (hc : it.head? = some c) :
+    cntHeap (hadvance h1 it) + cnt c = cntHeap h := by
+  have h1' := hpop_cnt hp
+  rw [hadvance_cnt]
+  cases it with
+  | nil => simp at hc
+  | cons a t =>
+    simp only [List.head?_cons, Option.some.injEq] at hc
+    subst hc
+    rw [cntIt_cons] at h1'
+    simp only [List.tail_cons]
+    omega
+
+theorem overlapLoop_cnt : ∀ (f : Nat) (h : List ChunkIt) (om : List AggrChk) (oMax : Int) (prev : AggrChk),
+    NE h →
+    NE (overlapLoop f h om oMax prev).1 ∧
+    cntHeap (overlapLoop f h om oMax prev).1 + ((overlapLoop f h om oMax prev).2.map cnt).sum
+      ≤ cntHeap h + (om.map cnt).sum := by
+  intro f
+  induction f with
+  | zero => intro h om oMax prev hh; exact ⟨hh, Nat.le_refl _⟩
+  | succ f ih =>
+    intro h om oMax prev hh
+    unfold overlapLoop
+    cases hnext : h.head?.bind (·.head?) with
+    | none => exact ⟨hh, Nat.le_refl _⟩
+    | some next =>
+      simp only
+      split
+      · exact ⟨hh, Nat.le_refl _⟩
+      · cases hp : hpop h with
+        | none => exact ⟨hh, Nat.le_refl _⟩
+        | some p =>
+          obtain ⟨it, h1⟩ := p
+          have hhd := hpop_head hp
+          rw [hhd] at hnext
+          simp only [Option.bind_some] at hnext
+          have hacc := pop_advance_cnt hp hnext
+          have hh2 : NE (hadvance h1 it) := hadvance_ne (fun x hx => hh x ((hpop_mem hp).2 x hx))
+          simp only
+          split
+          · obtain ⟨i1, i2⟩ := ih (hadvance h1 it) om oMax prev hh2
+            exact ⟨i1, by omega⟩
+          · obtain ⟨i1, i2⟩ := ih (hadvance h1 it) (om ++ [next])
+              (if next.maxt > oMax then next.maxt else oMax) next hh2
+            refine ⟨i1, ?_⟩
+            simp only [List.map_append, List.sum_append, List.map_cons, List.map_nil, List.sum_cons,
+              List.sum_nil] at i2
+            omega
+
+theorem cnt_pos {c : AggrChk} (h : chunkWF c = true) : 0 < cnt c := by
+  have := (chunkWF_agg h).2.2.1
+  unfold cnt
+  exact List.length_pos_iff.mpr this
+
+/-- **One `Next` of the repaired merger on a heap of well-formed chunks never panics**: it ends
+    exactly when the heap is empty, and otherwise yields a chunk and a heap holding strictly fewer
+    count samples. -/
+theorem dcNext_total {split : Nat} (hsp : 0 < split) {h : List ChunkIt}
+    (hh : HeapAll (fun c => chunkWF c = true) h) (hne : NE h) :
+    (h = [] ∧ dcNext true true split h = .done) ∨
+    ∃ c h', dcNext true true split h = .chunk c h' ∧ NE h' ∧ cntHeap h' + 1 ≤ cntHeap h := by
+  cases hp : hpop h with
+  | none =>
+    left
+    exact ⟨hpop_none hp, by unfold dcNext; rw [hp]⟩
+  | some p =>
+    right
+    obtain ⟨it, h1⟩ := p
+    obtain ⟨hmem, hsub⟩ := hpop_mem hp
+    obtain ⟨hit, hh1⟩ := hpop_all hh hp
+    have hitne := hne it hmem
+    cases it with
+    | nil => exact absurd rfl hitne
+    | cons curr t =>
+      have hcurr : chunkWF curr = true := hit curr (by simp)
+      have hacc := pop_advance_cnt hp (c := curr) rfl
+      have hne2 : NE (hadvance h1 (curr :: t)) := hadvance_ne (fun x hx => hne x (hsub x hx))
+      have hh2 := hadvance_all hh1 hit
+      obtain ⟨hr1, hr2⟩ := overlapLoop_all (P := fun c => chunkWF c = true)
+        (heapChunks (hadvance h1 (curr :: t)) + 1) (hadvance h1 (curr :: t)) [] curr.maxt curr hh2 (by simp)
+      obtain ⟨hn1, hn2⟩ := overlapLoop_cnt (heapChunks (hadvance h1 (curr :: t)) + 1)
+        (hadvance h1 (curr :: t)) [] curr.maxt curr hne2
+      have hpos := cnt_pos hcurr
+      simp only [List.map_nil, List.sum_nil, Nat.add_zero] at hn2
+      unfold dcNext
+      rw [hp]
+      simp only [List.head?_cons]
+      split
+      · exact ⟨_, _, rfl, hn1, by omega⟩
+      · rename_i hemp
+        have hne' : (overlapLoop (heapChunks (hadvance h1 (curr :: t)) + 1) (hadvance h1 (curr :: t)) []
+            curr.maxt curr).2 ≠ [] := by
+          intro he; rw [he] at hemp; simp at hemp
+        obtain ⟨out, hout, hwf, hone, hocnt⟩ := aggrOut_wf hsp _ curr hne' (by
+          intro c hc
+          rcases List.mem_append.mp hc with hc | hc
+          · exact hr2 c hc
+          · simp at hc; subst hc; exact hcurr)
+        rw [hout]
+        cases out with
+        | nil => exact absurd rfl hone
+        | cons c rest =>
+          simp only
+          have hcpos : 0 < cnt c := cnt_pos (hwf c (by simp))
+          simp only [List.map_append, List.sum_append, List.map_cons, List.map_nil, List.sum_cons,
+            List.sum_nil] at hocnt
+          refine ⟨_, _, rfl, ?_, ?_⟩
+          · split
+            · exact hn1
+            · rename_i hre
+              intro x hx
+              rcases hpush_mem hx with h3 | h3
+              · exact hn1 x h3
+              · subst h3; intro he; rw [he] at hre; simp at hre
+          · split
+            · omega
+            · rw [hpush_cnt]
+              have : cntIt rest = (rest.map cnt).sum := rfl
+              omega
+
+/-- with enough fuel the outer drain loop of the repaired merger terminates without a panic -/
+theorem dcDrain_total {split : Nat} (hsp : 0 < split) : ∀ (f : Nat) (h : List ChunkIt),
+    HeapAll (fun c => chunkWF c = true) h → NE h → cntHeap h + 1 ≤ f →
+    ∃ out, dcDrain true true split f h = some out := by
+  intro f
+  induction f with
+  | zero => intro h _ _ hf; omega
+  | succ f ih =>
+    intro h hh hne hf
+    unfold dcDrain
+    rcases dcNext_total hsp hh hne with ⟨_, hd⟩ | ⟨c, h', hc, hne', hlt⟩
+    · rw [hd]; exact ⟨[], rfl⟩
+    · rw [hc]
+      obtain ⟨out, ho⟩ := ih h' (dcNext_wf hsp hh hc).2 hne' (by omega)
+      exact ⟨c :: out, by simp [ho]⟩
 
 end Thanos.Dedup
